@@ -1,4 +1,5 @@
 import Anytree.Lemmas.ForestRun
+import Anytree.Lemmas.SetChildren
 import Anytree.Props.C01
 /-!
 # C02 — attach, move, detach and children assignment have exactly the specified effect
@@ -187,6 +188,74 @@ theorem delChildren_effect (s : Forest) (h : Inv s) (n : Nat) :
     · simp [hy, (h.bidir y n).1 hy]
     · have : y ∉ s.children n := fun hm => hy ((h.bidir y n).2 hm)
       simp [hy, this]
+
+/-! ## children assignment -/
+
+/-- a successful `n.children = xs` (distinct existing nodes, none of them `n` or an ancestor of
+`n`): mirror = closed-form specification — result, links and the complete hook log -/
+theorem setChildren_eq_spec (c : Cfg) (hφ : c.φ = noFaults) (fuel : Nat) (s : Forest) (n : Nat)
+    (xs : List Nat) (h : Inv s) (hfuel : s.n + 2 < fuel) (hn : n < s.n) (hnd : xs.Nodup)
+    (hlt : ∀ x ∈ xs, x < s.n) (hok : ∀ x ∈ xs, x ≠ n ∧ Spec.isAnc s x n = false) :
+    let o := exec c fuel (.setChildren n (some (xs.map Arg.node))) s
+    let r := Spec.setChildren c.fl s n (some (xs.map Arg.node))
+    o.res = r.res ∧ o.f = r.f ∧ o.log = r.log := by
+  have hr := Spec.setChildren_ok c.fl s n xs hnd hok
+  simp only [exec, Op.run, setChildren_nf hφ fuel n xs ⟨s, [], 0⟩ h hfuel hn hnd hlt hok, World.adv]
+  simp [hr]
+
+/-- … and in the words of the property: `n.children == tuple(xs)` in that order, former children of
+`n` that are not in `xs` are roots, every `x` has left its former parent, every node not named by
+the call keeps its parent and its children list (minus the moved nodes) -/
+theorem setChildren_effect (fl : Flavor) (s : Forest) (h : Inv s) (n : Nat) (xs : List Nat)
+    (hn : n < s.n) (hnd : xs.Nodup) (hlt : ∀ x ∈ xs, x < s.n)
+    (hok : ∀ x ∈ xs, x ≠ n ∧ Spec.isAnc s x n = false) :
+    let r := Spec.setChildren fl s n (some (xs.map Arg.node))
+    r.res = .ok () ∧ r.f.children n = xs ∧
+    (∀ y, r.f.parent y =
+      if xs.contains y then some n else if s.parent y = some n then none else s.parent y) ∧
+    (∀ q, q ≠ n → r.f.children q = (s.children q).filter (fun c => !xs.contains c)) :=
+  Spec.setChildren_effect fl s h n xs hn hnd hlt hok
+
+/-- refusal of a children assignment, decided on the pre-state: `TypeError` iff not iterable; else
+`TreeError` iff a child is listed twice or (NodeMixin flavour) is not a tree node — whichever comes
+first in the sequence; else `LoopError` iff some element is the node itself or one of its ancestors -/
+theorem setChildren_refusal (fl : Flavor) (s : Forest) (n : Nat) (xs : Option (List Arg)) :
+    (Spec.setChildren fl s n xs).res =
+      match xs with
+      | none => .error .typeError
+      | some as =>
+        match Spec.firstBad fl [] as with
+        | some e => .error e
+        | none =>
+          if (argsToNodes as).any (fun x => x = n || Spec.isAnc s x n) then .error .loopError
+          else .ok () := by
+  cases xs with
+  | none => rfl
+  | some as =>
+    simp only [Spec.setChildren]
+    cases Spec.firstBad fl [] as with
+    | some e => rfl
+    | none =>
+      simp only
+      split <;> rfl
+
+/-- the mirror's argument check is the specification's -/
+theorem checkChildren_eq_firstBad (fl : Flavor) :
+    ∀ (seen : List Nat) (as : List Arg),
+      checkChildren fl seen as = (match Spec.firstBad fl seen as with
+        | some e => .error e
+        | none => .ok ()) := by
+  intro seen as
+  induction as generalizing seen with
+  | nil => simp [checkChildren, Spec.firstBad]
+  | cons a as ih =>
+    cases a with
+    | nonNode => cases fl <;> simp [checkChildren, Spec.firstBad]
+    | node k =>
+      simp only [checkChildren, Spec.firstBad]
+      split
+      · rfl
+      · exact ih _
 
 -- non-vacuity: the hypotheses of the effect theorems are met by a concrete move
 example :
